@@ -201,3 +201,87 @@ Proof. vm_compute. split; reflexivity. Qed.
 (** the example declarations satisfy the hypothesis of the theorems *)
 Example C02_example_decls_ok : decls_ok exD.
 Proof. unfold decls_ok, exD, scheme_ok; cbn. repeat constructor. Qed.
+
+(* ================================================================== fc's own resolver (fc/infer.fo, transcribed in Core/Resolver.v) *)
+From FoVerif Require Import Core.Resolver Core.ResolverProofs.
+
+(** For every comparison [later] of variable names and every enumeration order [enum] of dict.Keys
+    that keeps membership: if the loop of updateResolver ended without silently ignoring a clash
+    (flag false) and every variable resolves (no cyclic type), the induced substitution unifies
+    every equation. *)
+Theorem C02_resolver_sound : forall later enum, (forall l x, In x (enum l) <-> In x l) ->
+  forall n m es st,
+  solve later enum n es = SSolved st false ->
+  (forall v, exists t, resolve m [] st v = ROk t) ->
+  unifies (induced m st) es.
+Proof. exact resolver_sound. Qed.
+Print Assumptions C02_resolver_sound.
+
+(** On unifiable well-formed equations the resolver never panics and never ignores a clash, and every
+    unifier factors through what it resolves (most general). *)
+Theorem C02_resolver_most_general : forall later enum, (forall l x, In x (enum l) <-> In x l) ->
+  forall n es th,
+  (forall l r, In (l,r) es -> wf l = true /\ wf r = true) -> unifies th es ->
+  solve later enum n es = SFuel \/
+  exists st, solve later enum n es = SSolved st false /\
+    forall m v t, resolve m [] st v = ROk t -> app th t = th v.
+Proof. exact resolver_most_general. Qed.
+Print Assumptions C02_resolver_most_general.
+
+(** Agreement with the reference (Robinson) unification: where [unify] answers [sg], the resolver's
+    substitution also solves the equations and the two are instances of each other - for every
+    enumeration order, so the result is order-independent up to renaming of the remaining variables. *)
+Theorem C02_resolver_agrees_with_unify : forall later enum, (forall l x, In x (enum l) <-> In x l) ->
+  forall k es sg n st g m,
+  (forall l r, In (l,r) es -> wf l = true /\ wf r = true) ->
+  unify k es = Ok sg ->
+  solve later enum n es = SSolved st g ->
+  (forall v, exists t, resolve m [] st v = ROk t) ->
+  g = false /\
+  unifies (induced m st) es /\
+  (forall v, app_seq sg (induced m st v) = app_seq sg (TVar v)) /\
+  (forall t, app (induced m st) (app_seq sg t) = app (induced m st) t).
+Proof. exact resolver_agrees_with_unify. Qed.
+Print Assumptions C02_resolver_agrees_with_unify.
+
+(** PARTIAL: the two hypotheses "the loop ended" and "every variable resolves" are not discharged.
+    The full statements would be (not proved):
+      - for unifiable well-formed equations there is a fuel bound for [update_resolver]
+        (argument: with a unifier th fixed, every relation produced in a pass either has a strictly
+        smaller size of th(source) than the relation it came from, or the pass merged two classes /
+        gave a class its first structure, which happens at most 2 * #variables times);
+      - for unifiable equations [resolve] never answers [RCycle] (a cycle would give a type properly
+        containing itself under th).
+    Without unifiability both fail: *)
+Definition C02_resolver_terminates_on_unifiable_statement : Prop :=
+  forall later enum, (forall l x, In x (enum l) <-> In x l) ->
+  forall es th, (forall l r, In (l,r) es -> wf l = true /\ wf r = true) -> unifies th es ->
+  exists n, solve later enum n es <> SFuel /\
+  forall st g, solve later enum n es = SSolved st g -> exists m, forall v, exists t, resolve m [] st v = ROk t.
+
+(** the loop of updateResolver diverges on T1 = []T1, T1 = [][]T1 (every fuel is exhausted) *)
+Theorem C02_update_resolver_can_diverge : forall n, solve Nat.ltb enum_id n es_div = SFuel.
+Proof. exact update_resolver_can_diverge. Qed.
+Print Assumptions C02_update_resolver_can_diverge.
+
+(** refuted without the no-ignored-clash hypothesis: compositeTp ignores a clash of two base types *)
+Theorem C02_resolver_sound_without_flag_refuted :
+  exists es st, (forall th, ~ unifies th es) /\
+    solve Nat.ltb enum_id 10 es = SSolved st true /\
+    (forall v, exists t, resolve 10 [] st v = ROk t) /\
+    ~ unifies (induced 10 st) es.
+Proof. exact resolver_sound_without_flag_refuted. Qed.
+Print Assumptions C02_resolver_sound_without_flag_refuted.
+
+Example C02_example_resolver_panic : solve Nat.ltb enum_id 10 [(TVar 0, tint); (TVar 0, tslice tint)] = SPanic.
+Proof. exact resolver_panics_on_shape_clash. Qed.
+
+(** the signature of  let chain f xs = ...  computed with fc's resolver instead of Robinson unification *)
+Example C02_example_resolver_chain :
+  infer_fun_resolver Nat.ltb enum_id exD 100
+    (mkFun [(0, None); (1, None)]
+       (XLet 2 (XPrim (PGlobal 0) [XVar 0; XVar 1])
+          (XLetTup [Some 3; Some 4] (XPrim (PGlobal 1) [XVar 2])
+             (XPrim (PTuple 2) [XVar 4; XVar 3]))))
+  = RInferred 3 [tfun [TVar 0] (ttuple [TVar 1; TVar 2]); tslice (TVar 0)] (ttuple [TVar 2; TVar 1]) false.
+Proof. vm_compute. reflexivity. Qed.
